@@ -167,6 +167,29 @@ func (e *effectCtx) stmt(info *types.Info, s ast.Stmt) []string {
 		return []string{"switch(" + tag + "){" + strings.Join(parts, " | ") + "}"}
 	case *ast.DeclStmt, *ast.EmptyStmt:
 		return nil
+	case *ast.ForStmt:
+		init, cond, post := "", "", ""
+		if s.Init != nil {
+			init = strings.Join(e.stmt(info, s.Init), "; ")
+		}
+		if s.Cond != nil {
+			cond = e.condStr(info, s.Cond)
+		}
+		if s.Post != nil {
+			post = strings.Join(e.stmt(info, s.Post), "; ")
+		}
+		return []string{"for(" + init + ";" + cond + ";" + post + "){" + strings.Join(e.stmts(info, s.Body.List), "; ") + "}"}
+	case *ast.RangeStmt:
+		k, v := "_", "_"
+		if s.Key != nil {
+			k = e.argStr(info, s.Key)
+		}
+		if s.Value != nil {
+			v = e.argStr(info, s.Value)
+		}
+		return []string{"range(" + k + "," + v + ":" + e.argStr(info, s.X) + "){" + strings.Join(e.stmts(info, s.Body.List), "; ") + "}"}
+	case *ast.BranchStmt:
+		return []string{s.Tok.String()}
 	}
 	return []string{"?stmt"}
 }
